@@ -119,5 +119,41 @@ fn console_vxw_c01() {
         }
     }
 
+    // ---- the real listener path (where the kernel lets us create the audit map): REAL handle_new_tcp_connection,
+    //      REAL TcpConnectionContext::new / redirector::lookup_audit; the original destination of a recorded connection is the
+    //      mock host itself (no rules apply to it) or the proxy's own listener address (always refused)
+    if let Some(map) = h.install_audit_map() {
+        for cfg in [None, Some(("enforce", "deny", 3u8))] {
+            h.set_rules(&|| cfg.map(|(m, d, k)| vx_rules(m, d, k, "x")));
+            for is_root in [false, true] {
+                for (method, target, body) in requests.iter() {
+                    let traversal = target.split('?').next().unwrap().contains("..");
+                    let wire = vx_request_bytes(method, target, &[("Host".to_string(), "127.0.0.1".to_string())], body);
+                    // (a) audit record present, destination = the mock host
+                    let mut c = h.connect_real(&h.ps, Some((&map, is_root)));
+                    c.send(wire.clone());
+                    let r = c.recv(false);
+                    let (bytes, reqs) = h.finish_real(c);
+                    check(&mut n, serde_json::json!({"path": "real handle_new_tcp_connection", "audit_record": "present, original destination = mock host", "is_root": is_root, "request": format!("{} {}", method, target)}),
+                        &[(traversal, 404)], &r, bytes, &reqs);
+                    // (b) no audit record for the connection
+                    let mut c = h.connect_real(&h.ps, None);
+                    c.send(wire.clone());
+                    let r = c.recv(false);
+                    let (bytes, reqs) = h.finish_real(c);
+                    check(&mut n, serde_json::json!({"path": "real handle_new_tcp_connection", "audit_record": "none (direct connection to the listener)", "request": format!("{} {}", method, target)}),
+                        &[(traversal, 404), (true, 421)], &r, bytes, &reqs);
+                    // (c) audit record present, original destination = the proxy's own listener address
+                    let mut c = h.connect_real_to(&h.ps, Some((&map, is_root, Ipv4Addr::LOCALHOST, crate::common::constants::PROXY_AGENT_PORT)));
+                    c.send(wire.clone());
+                    let r = c.recv(false);
+                    let (bytes, reqs) = h.finish_real(c);
+                    check(&mut n, serde_json::json!({"path": "real handle_new_tcp_connection", "audit_record": "present, original destination = the proxy itself (127.0.0.1:3080)", "is_root": is_root, "request": format!("{} {}", method, target)}),
+                        &[(traversal, 404), (true, 403)], &r, bytes, &reqs);
+                }
+            }
+        }
+    }
+
     println!("VXW-DONE {}", n);
 }
